@@ -459,7 +459,8 @@ class GaussianEuclideanMetricSystem(EuclideanMetricSystem):
 
     @cache_in_state("pos")
     def dh2_dpos(self, state: ChainState) -> ArrayLike:
-        return state.pos
+        # Copy so that cached value does not alias the state variable array
+        return state.pos.copy()
 
     def dh_dpos(self, state: ChainState) -> ArrayLike:
         return self.dh1_dpos(state) + self.dh2_dpos(state)
